@@ -29,6 +29,10 @@ def paired_lines(rng, L, n_cheap, n_exp, hist, ophist):
     # extra: canonical operands with all-ones limbs (carry corner cases) for sqr / mul
     for v in (L.p - 3, L.p - 2 ** 64, 2 ** (64 * (L.n - 1)) - 1, L.p - 2 ** 128 - 1, 2 ** L.e - 1):
         ref_lines += ["fp_sqr 0 %x" % v, "fp_mul 3 %x %x" % (v, v), "fp2_sqr 0 %x %x" % (v, v), "fp2_inv 0 %x %x" % (v, 1)]
+    # fp_decode_reduce: len-byte little-endian integer reduced mod p (ref ignores len: known finding)
+    nb = L.nbytes
+    for ln in (nb, nb - 1, 1, nb + 1, 2 * nb, 2 * nb + 5):
+        ref_lines.append("fp_decode_reduce 0 %x %x" % (ln, rng.bits(8 * ln) | (1 << (8 * ln - 1))))
     out_ref, out_bw = [], []
     for l in ref_lines:
         t = l.split()
@@ -36,7 +40,7 @@ def paired_lines(rng, L, n_cheap, n_exp, hist, ophist):
         if op in ("fp_tomont", "fp_frommont"):
             continue
         out_ref.append("E:" + l)
-        if op in ("fp_set_small", "fp2_set_small", "fp_decode", "fp2_decode", "fp_set_one", "fp_set_zero", "fp2_set_one"):
+        if op in ("fp_set_small", "fp2_set_small", "fp_decode", "fp2_decode", "fp_set_one", "fp_set_zero", "fp2_set_one", "fp_decode_reduce"):
             out_bw.append("E:" + l)
             continue
         a = t[2:]
@@ -70,6 +74,9 @@ def classify(L, lref, lbw, cref, cbw, model_bw):
         return "fp_decode:non-canonical", "fp_decode of a non-canonical byte string: ref reduces modulo p, x86 returns 0"
     if op == "fp2_decode" and (a[0] % 2 ** (8 * L.nbytes) >= L.p or a[0] >> (8 * L.nbytes) >= L.p):
         return "fp_decode:non-canonical", "fp2_decode of a non-canonical byte string: ref reduces modulo p, x86 returns 0"
+    if op == "fp_decode_reduce" and a[0] > L.nbytes:
+        return "fp_decode_reduce:len-ignored", ("fp_decode_reduce(d, src, len) with len > FP_ENCODED_BYTES: the ref routine ignores len and reduces only the first "
+                                                "FP_ENCODED_BYTES bytes (it also reads FP_ENCODED_BYTES bytes when len is smaller: over-read), x86 reduces the whole len-byte integer")
     if op in ("fp_set_small", "fp2_set_small") and a[0] >= 2 ** 32:
         return "fp_set_small:ge-2^32", "fp_set_small with a value >= 2^32: ref takes a 64-bit digit_t, the x86 prototype takes uint32_t (truncates)"
     return None
@@ -166,6 +173,8 @@ def run(ctx):
     n_cheap, n_exp = (700, 60) if quick else (30000, 2000)
     for lvl in (1, 3, 5):
         run_ops(ctx, exes, lvl, n_cheap, n_exp, hist, ophist)
+    for lvl in (1, 3, 5):
+        G.gcd_sweep(ctx, exes[("bw", lvl)], G.LEVELS[lvl], "bw", thorough=not quick, ref_exe=exes[("ref", lvl)])
     ntr = {1: 5, 3: 3, 5: 2} if quick else {1: 120, 3: 50, 5: 30}
     for lvl in (1, 3, 5):
         run_transcripts(ctx, full, lvl, ntr[lvl])
